@@ -173,8 +173,7 @@ def box(types, v, st):
             # pointer into the middle of an object: an opaque payload derived from the location;
             # the location travels with the value so that callees' writes can be accounted for
             l = v.loc
-            f = ops.uf('intptr_%d' % (abs(hash((l.fam, l.tk, l.static_path()))) % (10 ** 9)), *([I] * (1 + len(l.indices())) + [I]))
-            return Val('any', {('t',): tag, ('p',): f(l.ref, *l.indices())}, loc=l)
+            return Val('any', {('t',): tag, ('p',): interior_handle(l)}, loc=l)
         return Val('any', {('t',): tag, ('p',): v.lv[lvs[0][0]]})
     if len(lvs) == 0:
         return Val('any', {('t',): tag, ('p',): z3.IntVal(0)})
@@ -278,3 +277,47 @@ def canon_args(types, v):
             out += canon_args(types, index_array_val(types, v, z3.IntVal(i)))
         return out
     return [v.lv[p] for (p, s, role) in types.leaves(v.t)]
+
+
+_INTPTR = {}
+
+
+def interior_handle(l):
+    """an integer standing for a pointer into the middle of an object: a function of the
+    object's reference and the indices on the access path (the path itself is in the name)"""
+    import zlib
+    sig = (l.fam, l.tk, tuple((s[0], s[1] if s[0] == 'f' else None) for s in l.steps), l.t)
+    name = 'intptr_%08x' % (zlib.crc32(repr(sig).encode()) & 0xffffffff)
+    _INTPTR[name] = sig
+    f = ops.uf(name, *([I] * (1 + len(l.indices())) + [I]))
+    return f(l.ref, *l.indices())
+
+
+def loc_of_handle(term):
+    """inverse of interior_handle on terms that are syntactically a handle; None otherwise;
+    raises when a handle is buried inside another term (e.g. merged by an if-then-else)"""
+    from .sym import Loc
+    t = z3.simplify(term)
+    if z3.is_app(t) and t.decl().name() in _INTPTR:
+        fam, tk, steps, typ = _INTPTR[t.decl().name()]
+        args = t.children()
+        ref = args[0]
+        idxs = list(args[1:])
+        out = []
+        for (k, nm) in steps:
+            if k == 'f':
+                out.append(('f', nm))
+            else:
+                out.append(('i', idxs.pop(0)))
+        return Loc(fam, tk, ref, out, typ)
+    todo = [t]
+    seen = set()
+    while todo:
+        x = todo.pop()
+        if x.get_id() in seen:
+            continue
+        seen.add(x.get_id())
+        if z3.is_app(x) and x.decl().name() in _INTPTR:
+            raise OutOfSubset('pointer value mixes interior pointers (merged or conditional)')
+        todo.extend(x.children())
+    return None
